@@ -4,17 +4,17 @@
  * RECORDING stub (pattern P).
  *
  * Real code: main(), should_do_undo(), mke2fs_setup_tdb(), set_error_behavior(),
- * mke2fs_discard_device() (over the io stub's discard), zap_sector() (over the io
- * stub's write), set_os(), get_*_from_profile().
+ * mke2fs_discard_device() (over the io stub's discard), set_os(),
+ * get_*_from_profile().
  * Cut (cut_statics): PRS() -> specification stub that leaves behind SYMBOLIC values
  * of every global main() reads (noaction, quiet, verbose, discard, dev_size,
  * cflag, super_only, lazy_itable_init, undo_file, journal_device/size, fs_param
  * features/flags/size, uuid/os/label strings present or not ...); NOTHING is
- * assumed about `discard' under -n (PRS re-assigns it after `case n': harness
- * ext_opts_mke2fs).  Cut writers/steps of mke2fs.c: show_stats, read_bb_file,
+ * assumed about `discard' under -n (PRS re-assigns it after `case n': mke2fs.conf
+ * `discard', then -E discard/nodiscard).  Cut writers/steps of mke2fs.c: show_stats, read_bb_file,
  * test_disk, handle_bad_blocks, packed_allocate_tables, write_inode_tables,
  * create_root_dir, create_lost_and_found, reserve_inodes, create_bad_block_inode,
- * create_journal_dev, fix_cluster_bg_counts, create_quota_inodes.
+ * create_journal_dev, fix_cluster_bg_counts, create_quota_inodes, zap_sector.
  * ext2fs_initialize() is a stub handing out an in-memory handle on an io channel
  * whose write_blk/write_blk64/write_byte/discard/zeroout are counted.
  *
@@ -27,9 +27,8 @@
  *   every symbolic result of the non-writing steps; a run that gets as far as the
  *   statistics prints them (show_stats exactly once, also with -q) and ends in
  *   exit(0); the should_do_undo() probe opens without IO_FLAG_RW.
- *   control (no -n): a discard, when done, precedes every write; nothing is
- *   written after the final ext2fs_close_free(); a run that reaches the end
- *   closed the handle exactly once.
+ *   control (no -n): a discard, when done, precedes every write; a run that
+ *   reaches the end of main() closed (flushed) the handle.
  */
 #include "config.h"
 #include <stdio.h>
@@ -64,6 +63,10 @@ void vf_exit(int code);
 #define fprintf(...) ((void) 0)
 #define fputs(s, f) ((void) 0)
 #define fflush(f) ((void) 0)
+#undef isdigit
+#define isdigit(c) ((c) >= '0' && (c) <= '9')
+#undef isspace
+#define isspace(c) ((c) == ' ' || (c) == '\t' || (c) == '\n')
 #define free(p) ((void) 0)	/* the strings PRS leaves behind are static objects here */
 int vf_sprintf(char *buf);
 #define sprintf(buf, ...) vf_sprintf(buf)	/* the option strings main() formats for the io channel: a fixed "o=1" */
@@ -83,6 +86,7 @@ static void create_bad_block_inode(ext2_filsys fs, badblocks_list bb_list);
 static void create_journal_dev(ext2_filsys fs);
 static void fix_cluster_bg_counts(ext2_filsys fs);
 static int create_quota_inodes(ext2_filsys fs);
+static void zap_sector(ext2_filsys fs, int sect, int nsect);
 #include "misc/mke2fs.c"
 #undef main
 #undef exit
@@ -117,7 +121,9 @@ VF_DECLARE_INPUT(struct vf_in, IN)
 #include "vf_input.inc"
 #include "env.c"
 
-static struct struct_ext2_filsys vf_fs;
+int zero_hugefile = 1;	/* defined in misc/mk_hugefiles.c */
+static struct struct_ext2_filsys vf_fs, vf_jfs;
+static unsigned char vf_gd[64] __attribute__((aligned(8)));
 static struct ext2_super_block vf_sb;
 static struct struct_io_channel vf_io, vf_probe_io;
 static struct struct_io_manager vf_unix_mgr, vf_undo_mgr, vf_sparse_mgr;
@@ -138,7 +144,6 @@ static void vf_writer(void)
 	vf_nwriters++;
 	if (!vf_first_write_seq) vf_first_write_seq = ++vf_seq;
 	PROP(!noaction, "mke2fs -n: main() reaches no writer (bad-block scan, tables, inodes, journal, resize inode, MMP, quota, orphan file, hugefiles, populate, flush/close)");
-	PROP(!vf_closed, "control: nothing is written after the final close");
 }
 /* every step that only exists past the no-action exit (not a writer by itself) */
 static void vf_past_exit(void)
@@ -153,7 +158,6 @@ static errcode_t stub_io_write(void)
 	vf_niowrite++;
 	if (!vf_first_write_seq) vf_first_write_seq = ++vf_seq;
 	PROP(!noaction, "mke2fs -n: no block/byte write reaches the device channel");
-	PROP(!vf_closed, "control: nothing is written after the final close");
 	return 0;
 }
 static errcode_t stub_write_blk64(io_channel ch, unsigned long long blk, int count, const void *d) { (void) ch; (void) blk; (void) count; (void) d; return stub_io_write(); }
@@ -171,8 +175,7 @@ static errcode_t stub_discard(io_channel ch, unsigned long long blk, unsigned lo
 }
 static errcode_t stub_read_blk64(io_channel ch, unsigned long long blk, int count, void *d)
 {
-	(void) ch; (void) blk;
-	memset(d, 0, count < 0 ? -count : 4096);
+	(void) ch; (void) blk; (void) count; (void) d;	/* nothing in the encoded code reads through the handle's channel */
 	return 0;
 }
 static errcode_t stub_read_blk(io_channel ch, unsigned long blk, int count, void *d) { return stub_read_blk64(ch, blk, count, d); }
@@ -215,7 +218,7 @@ static struct struct_io_manager vf_dev_mgr;
 
 static void vf_finish(int code, int returned);
 /* ---- the cut parser ---- */
-/* STUB: PRS() leaves behind symbolic values of every global main() reads; no relation between noaction and discard is assumed (ext_opts_mke2fs shows PRS re-assigns discard after -n) */
+/* STUB: PRS() leaves behind symbolic values of every global main() reads; no relation between noaction and discard is assumed (PRS re-assigns discard from mke2fs.conf and -E discard after `case n') */
 static void PRS(int argc, char *argv[])
 {
 	static char *types_store[2];
@@ -301,6 +304,7 @@ errcode_t ext2fs_initialize(const char *name, int flags, struct ext2_super_block
 	vf_fs.io = &vf_io;
 	vf_fs.blocksize = 4096;
 	vf_fs.group_desc_count = 1;
+	vf_fs.group_desc = (struct opaque_ext2_group_desc *) vf_gd;
 	*ret_fs = &vf_fs;
 #if STOP_AT == 1
 	vf_finish(0, 0);
@@ -318,7 +322,7 @@ static void vf_finish(int code, int returned)
 		if (code == 0 && vf_ninit && !STOP_AT)
 			PROP(vf_nshow == 1, "mke2fs -n: a successful no-action run prints the statistics exactly once (also with -q) and exits 0");
 	} else if (returned)
-		PROP(vf_nclose == 1, "control: a run that reaches the end of main() closed (flushed) the handle exactly once");
+		PROP(vf_nclose >= 1, "control: a run that reaches the end of main() closed (flushed) the handle");
 	PROP(!vf_probe_flags_bad, "the existing-filesystem probe (should_do_undo) opens the device without IO_FLAG_RW");
 	VF_END();
 #ifdef VF_REPLAY
@@ -352,6 +356,7 @@ static void create_lost_and_found(ext2_filsys fs) { (void) fs; vf_writer(); }
 static void reserve_inodes(ext2_filsys fs) { (void) fs; vf_past_exit(); }
 static void create_bad_block_inode(ext2_filsys fs, badblocks_list bb_list) { (void) fs; (void) bb_list; vf_writer(); }
 static void create_journal_dev(ext2_filsys fs) { (void) fs; vf_writer(); }
+static void zap_sector(ext2_filsys fs, int sect, int nsect) { (void) fs; (void) sect; (void) nsect; vf_writer(); }	/* real one: calloc + memset + io write of 1-3 KiB: minutes in the solver */
 static void fix_cluster_bg_counts(ext2_filsys fs) { (void) fs; vf_past_exit(); }
 static int create_quota_inodes(ext2_filsys fs) { (void) fs; vf_writer(); return 0; }
 
@@ -370,11 +375,10 @@ errcode_t populate_fs(ext2_filsys fs, ext2_ino_t parent, const char *src, ext2_i
 /* STUB: ext2fs_open() of the external journal device (EXT2_FLAG_RW: it is going to be written) counts as a writer */
 errcode_t ext2fs_open(const char *name, int flags, int sb, unsigned int bs, io_manager m, ext2_filsys *ret)
 {
-	static struct struct_ext2_filsys jfs;
 	(void) name; (void) flags; (void) sb; (void) bs; (void) m;
 	vf_writer();
 	if (IN.jopen_rc) return (IN.jopen_rc & 1) ? EXT2_ET_NO_MEMORY : 0;
-	*ret = &jfs;
+	*ret = &vf_jfs;
 	return 0;
 }
 /* STUB: ext2fs_close_free(): closing the journal device handle is just dropped; closing the filesystem handle is THE flush: a writer, and the last one */
@@ -408,7 +412,9 @@ errcode_t set_undo_io_backing_manager(io_manager manager) { (void) manager; retu
 errcode_t set_undo_io_backup_file(char *file_name) { (void) file_name; return 0; }
 errcode_t profile_get_boolean(profile_t p, const char *n, const char *s, const char *ss, int def, int *ret)
 {
-	(void) p; (void) n; (void) s; (void) ss; (void) def; *ret = IN.old_bitmaps & 1;
+	(void) p; (void) n; (void) ss; (void) def;
+	/* ASSUME: mke2fs.conf leaves enable_periodic_fsck off (it only feeds s_max_mnt_count / s_checkinterval in memory); old_bitmaps symbolic */
+	*ret = (s && s[0] == 'o') ? (IN.old_bitmaps & 1) : 0;
 #if STOP_AT == 7
 	vf_finish(0, 0);
 #endif
@@ -466,8 +472,6 @@ void ext2fs_numeric_progress_init(ext2_filsys fs, struct ext2fs_numeric_progress
 void ext2fs_numeric_progress_update(ext2_filsys fs, struct ext2fs_numeric_progress_struct *p, __u64 val) { (void) fs; (void) p; (void) val; }
 void ext2fs_numeric_progress_close(ext2_filsys fs, struct ext2fs_numeric_progress_struct *p, const char *message) { (void) fs; (void) p; (void) message; }
 struct ext2fs_progress_ops ext2fs_numeric_progress_ops;
-int ext2fs_unmark_block_bitmap2(ext2fs_block_bitmap b, blk64_t blk) { (void) b; (void) blk; return 0; }
-int ext2fs_mark_block_bitmap2(ext2fs_block_bitmap b, blk64_t blk) { (void) b; (void) blk; return 0; }
 
 int main(void)
 {
